@@ -191,14 +191,15 @@ theorem withdraw_spec_gen {s s' : St} {who lp : Nat} (hab : s.ab.length = 5) (hl
   obtain ⟨⟨⟨⟨⟨hlp, _⟩, hpend⟩, hsup⟩, _⟩, hout⟩ := hok
   have hwa : who < s.ab.length := by rw [hab]; omega
   have hwl : who < s.lb.length := by rw [hlb]; omega
-  have h1 := setN_sum s.ab who (getN s.ab who + shareOf s lp) hwa
-  have h2 := setN_sum s.lb who (getN s.lb who - lp) hwl
   have h3 := getN_le_sum s.lb who
-  refine ⟨by simp [withdrawRes, setN_length, hab], by simp [withdrawRes, setN_length, hlb], ?_, ?_, rfl, ?_,
-    rfl, rfl, rfl, rfl, rfl, rfl, rfl, rfl, hlp, hsup, hpend⟩
-  · simp only [withdrawRes]; omega
-  · simp only [withdrawRes]; omega
-  · simp only [withdrawRes]; omega
+  unfold withdrawRes
+  generalize shareOf s lp = sh at *
+  have h1 := setN_sum s.ab who (getN s.ab who + sh) hwa
+  have h2 := setN_sum s.lb who (getN s.lb who - lp) hwl
+  refine ⟨by simp [setN_length, hab], by simp [setN_length, hlb], ?_, ?_, ?_, ?_,
+    ?_, ?_, ?_, ?_, ?_, ?_, ?_, ?_, hlp, hsup, hpend⟩
+  all_goals try (simp only; done)
+  all_goals (simp only; omega)
 
 theorem withdraw_spec {s s' : St} {who lp : Nat} (hI : Inv s) (hw : who < 4)
     (h : withdraw s who lp = some s') :
